@@ -109,6 +109,7 @@ def check_queries(scfg, g, subsets, meta=True, parent_entries=None, g_all=None):
     names = list(g)
     ga = g_all or g
     reach = closure(g)
+    before = [(k, type(b).__name__, tuple(b._jump_targets), tuple(b.backedges)) for k, b in scfg.graph.items()]
     # --- SCC
     try:
         got = scfg.compute_scc()
@@ -218,6 +219,20 @@ def check_queries(scfg, g, subsets, meta=True, parent_entries=None, g_all=None):
                 closest = [a for a in strict if all(c in exp[a] for c in strict)]
                 if len(closest) != 1 or im.get(b) != closest[0]:
                     raise M.Viol(f"Q-i{label}", f"_imm_doms[{b}] = {im.get(b)}, closest strict dominator is {closest}")
+    # --- queries are pure: asked again after all the others they answer the same, and the graph is untouched
+    try:
+        again = [frozenset(c) for c in scfg.compute_scc()]
+    except Exception as e:
+        raise M.Viol("Q-scc-raise", f"second compute_scc raised {type(e).__name__}: {e}")
+    if sorted(map(sorted, again)) != sorted(map(sorted, gots)):
+        raise M.Viol("Q-again", "compute_scc answers differently when asked a second time")
+    for a in names[:3]:
+        for b in sorted(ends)[:4]:
+            if bool(scfg.is_reachable_dfs(a, b)) != (b in reach[a]):
+                raise M.Viol("Q-again", f"is_reachable_dfs({a},{b}) answers differently when asked a second time")
+    after = [(k, type(b).__name__, tuple(b._jump_targets), tuple(b.backedges)) for k, b in scfg.graph.items()]
+    if after != before:
+        raise M.Viol("Q-mutates", "a query changed the graph it was asked about")
 
 
 # --------------------------------------------------------------------------
